@@ -228,7 +228,7 @@ type CustomType struct {
 	TypeName string
 }
 
-func NewCustomType(specCustom string, st InternalSchemaType) (CustomType, Imports) {
+func NewCustomType(specCustom string, st InternalSchemaType) (CustomType, Imports, error) {
 	var customImport string
 	customType := specCustom
 	var customPkg string
@@ -245,6 +245,10 @@ func NewCustomType(specCustom string, st InternalSchemaType) (CustomType, Import
 	}
 
 	dotIdx := strings.LastIndex(specCustom, ".")
+	if hasCustomImport && dotIdx < slIdx {
+		// github.com/username/MyType
+		return CustomType{}, nil, fmt.Errorf("custom type %q: expected <import path>.<type name>", specCustom)
+	}
 	if dotIdx >= 0 {
 		// github.com/username/name.MyType
 		//                         ^
@@ -270,7 +274,7 @@ func NewCustomType(specCustom string, st InternalSchemaType) (CustomType, Import
 
 		Pkg:      customPkg,
 		TypeName: typeName,
-	}, NewImportsS(customImport)
+	}, NewImportsS(customImport), nil
 }
 
 var _ InternalSchemaType = (*CustomType)(nil)
